@@ -2,29 +2,17 @@ package main
 
 import (
 	"fmt"
-	"os"
 
-	jdoc "github.com/jsightapi/jsight-schema-core/formats/json"
+	"github.com/jsightapi/jsight-schema-core/notations/jschema"
 )
 
 func main() {
-	for _, in := range os.Args[1:] {
-		for _, trailing := range []bool{false, true} {
-			var d = jdoc.New("x", in)
-			if trailing {
-				d = jdoc.New("x", in, jdoc.AllowTrailingNonSpaceCharacters())
-			}
-			fmt.Printf("%q trailing=%v:", in, trailing)
-			for {
-				lex, err := d.NextLexeme()
-				if err != nil {
-					fmt.Printf(" ERR(%v) last=%s[%d:%d]", err, lex.Type(), lex.Begin(), lex.End())
-					break
-				}
-				fmt.Printf(" %s[%d:%d]", lex.Type(), lex.Begin(), lex.End())
-			}
-			l, lerr := d.Len()
-			fmt.Printf("\n   Len=%d,%v Check=%v\n", l, lerr, jdoc.New("x", in).Check())
+	for _, order := range [][]string{{"@usesT", "@t"}, {"@t", "@usesT"}} {
+		texts := map[string]string{"@usesT": `{"r": @t, "s": [@t, @t]}`, "@t": `"str" // {minLength: 1}`}
+		root := jschema.New("root", `{"a": 1}`)
+		for _, n := range order {
+			fmt.Println("AddType", n, root.AddType(n, jschema.New(n, texts[n])))
 		}
+		fmt.Println(order, "Check:", root.Check())
 	}
 }
